@@ -142,6 +142,13 @@ def gen_case(chk, i):
         for ops in secs:
             k = len(ops) - 1 - ops[::-1].index("free")
             ops.insert(k, "barrier")
+    if i % 80 == 41:
+        # a stream larger than 2 GiB (2100 jumbo events of 1 MiB), relocated from OVNI_TMPDIR
+        a = ["init 500", "vercheck", "cpu 0 0", "require nosv 2.0.0", "ev OHx now %s" % obs.i32(0, 500, 0).hex()]
+        a += ["jumbo OB. now 1048576 7"] * 2100
+        a += ["ev OHe now -", "flush", "free"]
+        secs, nth, mode = [a], 1, "huge"
+        infos = [{"targets": []}]
     if i % 40 == 17:
         # one thread keeps emitting while another is silent for more than 2^31 ns (and,
         # in the other case of the tier, more than 2^32 ns): real clocks, real sleeps
@@ -159,7 +166,7 @@ def gen_case(chk, i):
         out.append("thread"); out.extend(ops); out.append("end")
     out.append("fini")
     return {"case": i, "mode": mode, "threads": nth, "targets": infos[0]["targets"],
-            "tmpdir": (i % 5 == 4) or (nth > 1 and i % 4 == 0), "shortwrite": (i if i % 4 == 3 else 0), "nostdin": (i % 7 == 5), "script": "\n".join(out) + "\n"}
+            "tmpdir": (i % 5 == 4) or (nth > 1 and i % 4 == 0) or mode == "huge", "shortwrite": (i if i % 4 == 3 else 0), "nostdin": (i % 7 == 5), "script": "\n".join(out) + "\n"}
 
 
 def validate_stream(sdir):
@@ -182,7 +189,8 @@ def validate_stream(sdir):
         if not ok:
             return "metadata incomplete: %s" % k, st
     try:
-        evs = obs.decode_file(os.path.join(sdir, "stream.obs"))
+        p_ = os.path.join(sdir, "stream.obs")
+        evs = obs.decode_file(p_) if os.path.getsize(p_) < (1 << 29) else obs.decode_file_light(p_)
     except obs.DecodeError as ex:
         return "not tiled: %s" % ex.msg, st
     last = 0
